@@ -30,11 +30,15 @@ func reopenDuringSend(ids []*identity, viaDetach bool) (string, []string) {
 	e0 := *refA.VerifState().Open
 	steps = append(steps, fmt.Sprintf("A and B attached (epoch %d)", e0))
 	// A's Send is in flight: B's application is not receiving yet
-	sA := startSend(ctx, refA, []byte("in-flight"), nil)
-	time.Sleep(5 * time.Millisecond)
 	connA := ncA.last()
 	connA.setHold(true)
-	steps = append(steps, "A.Send(in-flight) pending, relay->A stream back-pressured")
+	// B sends something to A: A's write loop at the relay blocks in strm.Send and
+	// therefore sees the re-open only after the fact (Opened n directly followed by Opened n')
+	startSend(ctx, refB, []byte("from-b"), nil)
+	time.Sleep(5 * time.Millisecond)
+	sA := startSend(ctx, refA, []byte("in-flight"), nil)
+	time.Sleep(5 * time.Millisecond)
+	steps = append(steps, "relay->A stream back-pressured (write loop blocked), A.Send(in-flight) pending")
 	nB := ncB.count()
 	if viaDetach {
 		ncB.setRefuse(true)
@@ -73,7 +77,14 @@ func c23(c *hx.Ctx) {
 	c.Type = "c23_case"
 	c.Agree = "c23_agree"
 	c.Rule = "(a) sequential scripts against the real client behind a scripted relay, weighted towards re-opens (Opened n, Opened n'), Closed, stream failures and restarts of execute while Sends are pending, compared step by step with the model, incl. the fixed script of the repaired re-open-during-send defect; (b) real relay + 2 or 3 real clients: random reconnect histories (stream failures, detach/re-attach, back pressure, gated receivers, cancellations) followed by a stable suffix in which every pending Send must succeed and its message be received within 5 s (timing observation); (c) deterministic re-open-during-send histories on the real relay; non-trivial = script with a Send or a returned Recv"
-	runScripts(c, c.N*2/3, &profC23, fixedC23(), true, func(g *genState, desc map[string]any) {})
+	nfixed := len(fixedC23())
+	runScripts(c, c.N*2/3, &profC23, fixedC23(), true, func(g *genState, desc map[string]any) {
+		if idx, _ := desc["index"].(int); idx < nfixed {
+			if done, ok, _ := g.r.sends[0].result(); !done || !ok {
+				c.Failf("c23-reopen-during-send-stuck", desc, "scripted relay: the session was re-opened while the Send was pending, the message was acknowledged in the new epoch, but Send did not return")
+			}
+		}
+	})
 	// composition scripts with many stream failures and restarts; the fixed one is a
 	// reconnect of the receiver while a Send is pending, then a stable suffix
 	fixedW := [][][3]any{{
